@@ -78,4 +78,65 @@ theorem C19_window_direction (w : Int) (n : Nat) (h : 1 ≤ w ∧ w ≤ 1000) :
 
 example : windowRun windowInit [.fastAcks 1, .fastAcks 2, .nacks 1, .fastAcks 3] = 4 := by decide
 
+/-! ### supervision: every deliverable message is POSTed — also after a pusher died
+
+The push service keeps one pusher per push subscription and looks, whenever one of the contexts it
+watches is done (or once a minute), for pushers that have ended: those are removed and started again.
+Which context it watches decides whether the death of a pusher is ever noticed. -/
+
+inductive MonCtx
+  /-- the context `errgroup.WithContext` returned: done as soon as the pusher's goroutine returns -/
+  | errgroup
+  /-- the context handed to `errgroup.WithContext`: done only when the service itself cancels the pusher -/
+  | parent
+deriving DecidableEq, Repr
+
+structure Sup where
+  /-- the pusher's goroutine is running -/
+  running   : Bool
+  /-- the service has cancelled it (push configuration removed, shutdown) -/
+  cancelled : Bool
+  /-- the subscription still has a push endpoint -/
+  wanted    : Bool
+deriving DecidableEq, Repr
+
+def seenDone (c : MonCtx) (s : Sup) : Bool :=
+  match c with
+  | .errgroup => !s.running || s.cancelled
+  | .parent => s.cancelled
+
+/-- one round of `startPushersOnce`: harvest what is seen as done, start a pusher for every wanted
+    subscription that has none -/
+def superviseRound (c : MonCtx) (s : Sup) : Sup :=
+  if seenDone c s then (if s.wanted then { running := true, cancelled := false, wanted := true } else { s with running := false })
+  else s
+
+def monCtxOfSource : MonCtx := if Extracted.pusherMonitorContext == "errgroup" then .errgroup else .parent
+
+/-- **C19 (a dead pusher is started again)**: with the context the source watches, a pusher that ended on
+    its own (a storage error, say) while its subscription still wants pushing is running again after one
+    supervision round — whatever else the state says. -/
+theorem C19_dead_pusher_restarted (s : Sup) (hdead : s.running = false) (hw : s.wanted = true) :
+    monCtxOfSource = .errgroup ∧ (superviseRound monCtxOfSource s).running = true := by
+  have hsrc : monCtxOfSource = .errgroup := by simp [monCtxOfSource, Extracted.pusherMonitorContext]
+  refine ⟨hsrc, ?_⟩
+  rw [hsrc]
+  simp [superviseRound, seenDone, hdead, hw]
+
+/-- watching the parent context instead: the dead pusher is never seen as done, round after round -/
+theorem C19_parent_context_variant_never_restarts (n : Nat) :
+    (Nat.repeat (superviseRound .parent) n { running := false, cancelled := false, wanted := true }).running = false := by
+  induction n with
+  | zero => rfl
+  | succ k ih =>
+    have hfix : ∀ s : Sup, s = { running := false, cancelled := false, wanted := true } → superviseRound .parent s = s := by
+      intro s hs; subst hs; rfl
+    have hall : Nat.repeat (superviseRound .parent) k { running := false, cancelled := false, wanted := true } =
+        { running := false, cancelled := false, wanted := true } := by
+      clear ih
+      induction k with
+      | zero => rfl
+      | succ j ihj => simp only [Nat.repeat]; rw [ihj]; rfl
+    simp only [Nat.repeat]; rw [hall]; rfl
+
 end Mmmbbb.Push
